@@ -28,7 +28,7 @@ PLANS = {
     "C03": plan(shards(20, 300)),
     "C04": plan(shards(20, 300, mode="light", n=10), shards(20, 300, mode="actor", n=3), shards(25, 300, mode="stack", n=3)),
     "C05": plan(shards(20, 300)),
-    "C06": plan(shards(20, 360, mode="images", n=13), shards(15, 240, mode="kill", n=2), shards(20, 300, mode="upgrade", n=1), tool("memcheck.sh", ["C06"], 3000)),
+    "C06": plan(shards(20, 360, mode="images", n=12), shards(15, 240, mode="kill", n=2), shards(20, 300, mode="upgrade", n=1), shards(20, 300, mode="node", n=1), tool("memcheck.sh", ["C06"], 3000)),
     "C07": plan(shards(15, 240)),
     "C08": plan(shards(20, 300)),
     "C09": plan(shards(20, 300), tool("miri.sh", ["c09"], 3000), tool("memcheck.sh", ["C09"], 3000)),
@@ -73,7 +73,7 @@ RULES = {
            "flush, scans, document removal); images: after every call, at every internal store access with the age-based commit "
            "forced at every access / at one access, and SIGKILLed child processes running 400-call histories. non-trivial = history "
            "containing a call that both prunes and writes (images), a kill that hit a running history (kill); distinct = hash of the history / kill point. "
-           "upgrade mode: the stored history is copied into a file of the redb-2.x on-disk format (with or without derived tables) and opened by a child that strace kills on entry to its k-th file-system call (all calls when <= 32 quick / 400 thorough, else a sample plus every rename / link / unlink); each kill point is one evaluation.",
+           "upgrade mode: the stored history is copied into a file of the redb-2.x on-disk format (with or without derived tables) and opened by a child that strace kills on entry to its k-th file-system call (all calls when <= 32 quick / 400 thorough, else a sample plus every rename / link / unlink); each kill point is one evaluation. node mode: a child does what a persistent docs node does when it starts (open the store, start the store actor, load or create the default author) and then follows a script of 1..5 steps (create an author and make it the default with or without a flush in between, flush, restart); strace kills it at the n-th call of every file-system call name (all when <= 48 quick / 600 thorough, else every call naming a path plus a sample); after each kill the node is started twice on what is left: it must start, its default author must be in the store and be the acknowledged one or the one being set.",
     "C07": "case = 4..30 random steps over three documents (import read/write, open, close, reopen, local insert/delete, valid remote "
            "insert, export, foreign merge), through the store (2/3) or the actor (1/3). non-trivial = a read capability was upgraded; distinct = hash of the trace.",
     "C08": "case = two replica-state entry sets (closed form of random offers, " + _GEN + ") + a neighbouring document; primitives on "
@@ -129,4 +129,5 @@ ASSUMPTIONS["C10"] = ["an in-memory duplex pipe models the QUIC stream; a cut is
 ASSUMPTIONS["C11"] = ["the network model imposes only causality (a session end needs its Allow, a reply needs its Reject); completion handlers are invoked directly rather than through the live actor's select loop",
                       "net mode: the live actor frees the slot before it emits the SyncFinished event of a session (read off on_sync_finished); loopback QUIC stands for the network"]
 ASSUMPTIONS["C06"].append("upgrade mode: strace delivers SIGKILL on entry to the chosen call, i.e. after the previous call completed; kill points are system-call boundaries of the single-threaded open")
+ASSUMPTIONS["C06"].append("node mode: the persistent state of a docs node is its directory (store file and default-author file); strace counts a call name per thread, so a kill point is 'the first thread to enter its n-th call of that name' (checked with mv under strace: the chosen call itself is not carried out); acknowledgements are directories created by the child (mkdir is not a traced call); a process that dies while redb creates a brand-new database file leaves a file redb refuses to open: no store call has returned at that point and file creation is redb's, so these kills are counted and not judged")
 ASSUMPTIONS["C17"] = ["two consecutive registrations obtain distinct wall-clock nanosecond readings"]
